@@ -49,9 +49,10 @@ def wellformed(v, dim, what):
 def run(chk):
     chk.rule = ("generated grid files (cartesian 2-D/3-D with small prime-ish cell counts, chunk 2-D/3-D, annulus, sphere) x random "
                 "worlds x --filtered --by-tag x -j: every VTU is parsed; (a) well-formedness (counts, connectivity in range, offsets, "
-                "types, data set lengths); (b) Cartesian: node order/positions/Depth recomputed from the grid file with the tool's "
-                "arithmetic and connectivity compared with the model Grid.v; (c) Temperature, velocity, Tag, compositions at every "
-                "node vs the library through wbprobe at the recomputed position (Cartesian, chunk); (d) filtered / by-tag files: "
+                "types, data set lengths); (b) node order/positions/Depth recomputed from the grid file with the tool's "
+                "arithmetic and connectivity compared with the model Grid.v - Cartesian boxes, 2-D/3-D chunks and the annulus; (c) "
+                "Temperature, velocity, Tag, compositions at every node vs the library through wbprobe at the recomputed position "
+                "(Cartesian, chunk, annulus); (d) filtered / by-tag files: "
                 "exactly the cells whose highest vertex tag is selected, vertex data unchanged; (e) non-Cartesian grids: Depth = "
                 "outer radius - |position|. non-trivial = a grid with at least one node inside a feature")
     chk.assumptions = ["VTU XML writing (vtu11) is third-party: checked by parsing, not modelled",
@@ -162,21 +163,46 @@ def run(chk):
                     for k in range(1, nz + 2):
                         lon = x0 + (float(i) - 1.0) * dlong; lat = y0 + (float(jy) - 1.0) * dlat; rad = g["z_min"] + (float(k) - 1.0) * dr
                         pos.append(((rad * math.cos(lat) * math.cos(lon), rad * math.cos(lat) * math.sin(lon), rad * math.sin(lat)), lr - (float(k) - 1.0) * dr))
+        elif kind == "chunk2":
+            x0, x1 = [g[k] * (PI / 180) for k in ("x_min", "x_max")]
+            dlong = (x1 - x0) / float(nx); lr = g["z_max"] - g["z_min"]; dr = lr / float(nz)
+            for i in range(1, nx + 2):
+                for jz in range(1, nz + 2):
+                    lon = x0 + (float(i) - 1.0) * dlong; rad = g["z_min"] + (float(jz) - 1.0) * dr
+                    pos.append(((rad * math.cos(lon), rad * math.sin(lon)), lr - (float(jz) - 1.0) * dr))
+        elif kind == "annulus":
+            inner, outer = g["z_min"], g["z_max"]
+            l_outer = 2.0 * PI * outer; lr = outer - inner; dr = lr / float(nz)
+            nt = int((2.0 * PI * outer) / dr)
+            sx = l_outer / float(nt)
+            for jz in range(0, nz + 1):
+                for i in range(1, nt + 1):
+                    xi = (float(i) - 1.0) * sx; zi = float(jz) * dr
+                    theta = xi / l_outer * 2.0 * PI
+                    px = math.cos(theta) * (inner + zi); pz = math.sin(theta) * (inner + zi)
+                    dep = outer - math.sqrt(px * px + pz * pz)
+                    pos.append(((px, pz), 0.0 if abs(dep) < 1e-8 else dep))
+            r["nt"] = nt
         r["pos"] = pos
         if pos:
             r["queries"] = [(cs.p2 if dim == 2 else cs.p3)(slot, p, dep, ps) for p, dep in pos]
             r["ps"] = ps
     impl, _ = cs.run(model=False)
     chk.evaluations += len(impl)
-    # model connectivity for the Cartesian grids
+    # model connectivity (Grid.v) for the Cartesian boxes, the chunks and the annulus
     body = ""
-    cart = [r for r in runs if r["kind"].startswith("cart")]
+    cart = [r for r in runs if r["kind"] != "sphere"]
+    lst = "let () = out_str (String.concat \" \" (\"ok\" :: List.map (fun i -> string_of_int (int_of_nat i)) (List.concat (%s))))\n"
     for r in cart:
         nx, ny, nz = r["n"]
-        if r["dim"] == 2:
-            body += "let () = out_str (String.concat \" \" (\"ok\" :: List.map (fun i -> string_of_int (int_of_nat i)) (List.concat (cells2 (nat_of_int %d) (nat_of_int %d)))))\n" % (nx, nz)
+        if r["kind"] == "cart2":
+            body += lst % ("cells2 (nat_of_int %d) (nat_of_int %d)" % (nx, nz))
+        elif r["kind"] in ("cart3", "chunk3"):
+            body += lst % ("cells3 (nat_of_int %d) (nat_of_int %d) (nat_of_int %d)" % (nx, ny, nz))
+        elif r["kind"] == "chunk2":
+            body += lst % ("cells_chunk2 (nat_of_int %d) (nat_of_int %d)" % (nx, nz))
         else:
-            body += "let () = out_str (String.concat \" \" (\"ok\" :: List.map (fun i -> string_of_int (int_of_nat i)) (List.concat (cells3 (nat_of_int %d) (nat_of_int %d) (nat_of_int %d)))))\n" % (nx, ny, nz)
+            body += lst % ("cells_annulus (nat_of_int %d) (nat_of_int %d)" % (r["nt"], nz))
     model = common.run_model(body, tag="c18") if cart else []
     for r, m in zip(cart, model):
         chk.corr["cases"] += 1
